@@ -478,6 +478,12 @@ func (c *Ctx) evalType(s string, pkg *types.Package) types.Type {
 		return nil
 	}
 	tv, err := types.Eval(c.prog.Fset, pkg, token.NoPos, s)
+	if err != nil && c.typePos.IsValid() {
+		// names of the function's own scope (type parameters of generic code)
+		if tv2, err2 := types.Eval(c.prog.Fset, pkg, c.typePos, s); err2 == nil {
+			tv, err = tv2, nil
+		}
+	}
 	if err != nil {
 		// try with imports of the package: pkgname.T
 		if i := strings.Index(s, "."); i > 0 {
